@@ -13,9 +13,10 @@
       ATTR  ::= none | display | display_i | debug | debug_i | sval | sval_i | serde | serde_i | value | value_i | error
       OPT   ::= plain | some | none
       PATH  ::= direct | erased | event | owned | shared | owned_thread | ctxt_push | ctxt_root | ctxt_nested | ctxt_thread
+              | emit (only with OPT = plain) | emit_ctxt
     Output: `absent` or `(b=… i64=… … null=… disp=… dbg=… sj=… vj=… chain=… tid=…)`; typed pulls are printed unless the
     hook is sval/serde and the value is not a plain primitive; disp/dbg are printed unless the hook is sval/serde;
-    dbg is not printed for error values (see `shown` in harness/hcore/src/streams/c19.rs).
+    dbg is not printed when the captured value is an error (see `shown` in harness/hcore/src/streams/c19.rs).
 -/
 import EmitModel.Base.Sexp
 import EmitModel.Model.Capture
@@ -72,7 +73,7 @@ partial def value? : Sexp → Option V
   | .list (.atom "err" :: d :: msgs) => do
     let ms ← msgs.mapM Sexp.str?
     if ms.isEmpty then none else pure (V.err ms (← d.str?))
-  | .list [.atom "opaque", d, g] => do pure (V.opaque (← optText? d) (← optText? g))
+  | .list [.atom "opaque", d, g] => do pure (V.fmtOnly (← optText? d) (← optText? g))
   | .list [.atom "level", t] => t.str?.map V.level
   | .list [.atom "traceid", n] => n.nat?.map V.traceId
   | .list [.atom "spanid", n] => n.nat?.map V.spanId
@@ -100,6 +101,7 @@ def path? : String → Option Path
   | "direct" => some .direct | "erased" => some .erased | "event" => some .event | "owned" => some .owned
   | "shared" => some .shared | "owned_thread" => some .ownedThread | "ctxt_push" => some .ctxtPush
   | "ctxt_root" => some .ctxtRoot | "ctxt_nested" => some .ctxtNested | "ctxt_thread" => some .ctxtThread
+  | "emit" => some .emit | "emit_ctxt" => some .emitCtxt
   | _ => none
 
 def isKey (k : String) : Bool :=
@@ -128,12 +130,12 @@ def fmtRes : Res → String
   | r => showRes r
 
 /-- the printed observations; `pulls` / `fmt` as decided by `shown` -/
-def render (pulls fmt : Bool) (c : Cap) : String :=
+def render (pulls fmt dbg : Bool) (c : Cap) : String :=
   let kv (name : String) (k : ObsKind) := name ++ "=" ++ showRes (observe k c)
   let p := if pulls then pullKinds.map (fun (n, k) => kv n k) else []
   let f := if fmt then
       ["disp=" ++ fmtRes (observe .display c)] ++
-        (if c.chain.isSome then [] else ["dbg=" ++ fmtRes (observe .debug c)])
+        (if dbg then ["dbg=" ++ fmtRes (observe .debug c)] else [])
     else []
   "(" ++ " ".intercalate (p ++ [kv "null" .isNull] ++ f ++
     [kv "sj" .serdeJson, kv "vj" .svalJson, kv "chain" .chain, kv "tid" .downcast]) ++ ")"
@@ -141,7 +143,7 @@ def render (pulls fmt : Bool) (c : Cap) : String :=
 def capKind : Cap → String
   | .signed _ => "signed" | .unsigned _ => "unsigned" | .bigSigned _ => "bigSigned" | .bigUnsigned _ => "bigUnsigned"
   | .float _ => "float" | .bool _ => "bool" | .char _ _ => "char" | .str _ _ => "str" | .empty => "empty"
-  | .display _ _ => "display" | .debug _ _ => "debug" | .error _ => "error"
+  | .display _ _ => "display" | .debug _ _ => "debug" | .error _ => "error" | .sharedError _ => "sharedError"
   | .sval _ _ _ => "sval" | .serde _ _ _ => "serde"
 
 def runC19 (line : String) : String :=
@@ -149,13 +151,13 @@ def runC19 (line : String) : String :=
   | some (.list [.atom "c19", .atom _ty, val, .list [.atom key, .atom attr, .atom opt], .atom path]) =>
     match value? val, attr? attr, optForm? opt, path? path with
     | some v, some a, some form, some p =>
-      if !isKey key then "bad-op" else
+      if !isKey key || (p == .emit && form != .plain) then "bad-op" else
       match captureSite key a form v with
       | none => "bad-op"          -- the call site would not compile
       | some none => s!"absent\t{attr}/{opt}/absent"
       | some (some c) =>
         let hook := hookFor key a
-        let out := render (!hook.structured || v.isLeaf) (!hook.structured) (readVia p c)
+        let out := render (!hook.structured || v.isLeaf) (!hook.structured) c.chain.isNone (readVia p c)
         s!"{out}\t{key}/{attr}/{opt}/{capKind c}/{path}"
     | _, _, _, _ => "bad-op"
   | _ => "bad-op"
